@@ -177,6 +177,11 @@ func c06rules(c *Ctx, w *World, pfx string) {
 	c.Rule(pfx+".R1", "Bucket is pure: no globals, no calls except hash/adler32.Checksum, no map iteration, goroutines or channels", 1, func(r *Rule) {
 		fn := w.Func("", "Bucket")
 		if fn == nil {
+			if _, host := w.FuncOrHost("", "Bucket"); host {
+				// Bucket was written into its only user: the formula is then checked where the shard is selected (R2)
+				r.Pass("Bucket:in-place", token.NoPos, "no Bucket function: the shard index formula is checked in place by R2's selector obligations")
+				return
+			}
 			r.Unresolved("gostatsd.Bucket")
 			return
 		}
@@ -404,21 +409,48 @@ func c06rules(c *Ctx, w *World, pfx string) {
 				if !ok || ptrOrigin(ia.X) != made {
 					return false
 				}
-				bc, ok := ptrOrigin(ia.Index).(*ssa.Call)
-				if !ok || !isCall(bc, "gostatsd.Bucket") || len(bc.Call.Args) != 3 {
+				isCountVal := func(n ssa.Value) bool {
+					n = ptrOrigin(n)
+					if n == ssa.Value(outer.Params[1]) {
+						return true
+					}
+					if lc, isC := n.(*ssa.Call); isC && isCall(lc, "builtin len") && ptrOrigin(lc.Call.Args[0]) == made {
+						// len(maps) is count: maps = make([]*MetricMap, count) is checked below
+						return true
+					}
 					return false
 				}
-				a := bc.Call.Args
-				if paramIndex(cl, a[0]) != 0 || paramIndex(cl, a[1]) != 1 {
+				if bc, ok := ptrOrigin(ia.Index).(*ssa.Call); ok && isCall(bc, "gostatsd.Bucket") && len(bc.Call.Args) == 3 {
+					a := bc.Call.Args
+					return paramIndex(cl, a[0]) == 0 && paramIndex(cl, a[1]) == 1 && isCountVal(a[2])
+				}
+				// the formula written in place: int((adler32(name) + adler32(tagsKey)) % uint32(count))
+				cv, ok := ptrOrigin(ia.Index).(*ssa.Convert)
+				if !ok {
 					return false
 				}
-				n := ptrOrigin(a[2])
-				if n == ssa.Value(outer.Params[1]) {
-					return true
+				rem := asBinOp(ptrOrigin(cv.X), token.REM)
+				if rem == nil {
+					return false
 				}
-				if lc, isC := n.(*ssa.Call); isC && isCall(lc, "builtin len") && ptrOrigin(lc.Call.Args[0]) == made {
-					// len(maps) is count: maps = make([]*MetricMap, count) is checked below
-					return true
+				sum := asBinOp(ptrOrigin(rem.X), token.ADD)
+				if sum == nil {
+					return false
+				}
+				hashOf := func(v ssa.Value) int {
+					hc, ok := ptrOrigin(v).(*ssa.Call)
+					if !ok || !isCall(hc, "hash/adler32.Checksum") {
+						return -1
+					}
+					return paramIndex(cl, stripConvVal(ptrOrigin(hc.Call.Args[0])))
+				}
+				h0, h1 := hashOf(sum.X), hashOf(sum.Y)
+				if !((h0 == 0 && h1 == 1) || (h0 == 1 && h1 == 0)) {
+					return false
+				}
+				m := ptrOrigin(rem.Y)
+				if mc, isCv := m.(*ssa.Convert); isCv {
+					return isCountVal(mc.X)
 				}
 				return false
 			}
@@ -459,16 +491,25 @@ func c06rules(c *Ctx, w *World, pfx string) {
 			}
 			// the result map: what SplitByTags returns
 			resName := ""
+			resMakes := map[ssa.Value]bool{} // map values returned directly (the result map when it is not a captured variable)
 			eachInstr(outer, func(in ssa.Instruction) {
 				if rt, ok := in.(*ssa.Return); ok && len(rt.Results) == 1 {
 					if _, isMap := rt.Results[0].Type().Underlying().(*types.Map); isMap {
 						if _, isMk := rt.Results[0].(*ssa.MakeMap); !isMk {
 							resName = pathOf(rt.Results[0])
+						} else {
+							resMakes[rt.Results[0]] = true
 						}
 					}
 				}
 			})
-			if resName == "" || len(outer.Params) < 2 {
+			isRes := func(v ssa.Value) bool {
+				if resName != "" && pathOf(v) == resName {
+					return true
+				}
+				return resMakes[ptrOrigin(v)]
+			}
+			if (resName == "" && len(resMakes) == 0) || len(outer.Params) < 2 {
 				return false, "the map returned by SplitByTags is not identified"
 			}
 			keyOK := func(k ssa.Value) (bool, string) {
@@ -477,7 +518,7 @@ func c06rules(c *Ctx, w *World, pfx string) {
 					return false, "key is not tagsMatch(...): " + pathOf(k)
 				}
 				a := call.Call.Args
-				if len(a) != 2 || valueName(a[0]) != outer.Params[1].Name() || paramIndex(cl, a[1]) != 1 {
+				if len(a) != 2 || !(valueName(a[0]) == outer.Params[1].Name() || ptrOrigin(a[0]) == ssa.Value(outer.Params[1])) || paramIndex(cl, a[1]) != 1 {
 					return false, "tagsMatch is not applied to (tagNames, tagsKey)"
 				}
 				return true, ""
@@ -494,14 +535,14 @@ func c06rules(c *Ctx, w *World, pfx string) {
 					if ok, why := keyOK(x.Index); !ok {
 						return false, why
 					}
-					if pathOf(x.X) != resName {
+					if !isRes(x.X) {
 						return false, "lookup is not in the result map"
 					}
 				case *ssa.Call:
 					// a fresh split: it must be filed in the result map under the same key
 					filed := false
 					for _, ref := range referrers(x) {
-						if mu, ok := ref.(*ssa.MapUpdate); ok && mu.Value == ssa.Value(x) && pathOf(mu.Map) == resName {
+						if mu, ok := ref.(*ssa.MapUpdate); ok && mu.Value == ssa.Value(x) && isRes(mu.Map) {
 							if ok, _ := keyOK(mu.Key); ok {
 								filed = true
 							}
